@@ -156,7 +156,7 @@ TOL_WIRED = ["_solver", "_boostedSolver", "_simplifierMainSM", "_simplifierPaPIL
              "_boostedRatiotesterHarris", "_boostedRatiotesterTextbook", "_slufactor", "_boostedSlufactor"]
 OUT_WIRED = ["_solver", "_simplifierMainSM", "_simplifierPaPILO", "_scalerUniequi", "_scalerBiequi", "_scalerGeo1", "_scalerGeo8", "_scalerGeoequi", "_scalerLeastsq"]
 EXTRA = (["c_statistics", "c_settings", "c_realLP", "c_rationalLP", "c_tolerances", "w_basisSolver", "w_solverStarter", "bp_solver_lpscaler", "bp_realLP_lpscaler",
-          "bp_realLP_spxout", "bp_rationalLP_spxout", "bp_rationalLP_tol", "bp_rationalLP_lpscaler"]
+          "bp_realLP_spxout", "bp_rationalLP_spxout", "bp_rationalLP_tol", "bp_rationalLP_lpscaler", "bp_realLP_tol"]
          + ["wt" + n for n in TOL_WIRED] + ["wo" + n for n in OUT_WIRED])
 slots = names + EXTRA
 idx = {n: k for k, n in enumerate(slots)}
@@ -201,9 +201,16 @@ samep = [ens("%s == %s" % (A("c_realLP"), B("c_realLP")), "SAME floating-point L
 clause_file("clauses_samep.h", samep)
 clause_file("clauses_same.h", same)
 # ---- NOTCOPIED: object state that neither operator= nor the copy constructor sets (fails by design)
-notc = [ens("%s == %s" % (A(n), B(n)), n) for n, kind, role in M if role == "D"]
-notc.append(ens("b_has_rat || (%s == %s && %s == %s)" % (A("_rationalPosInfty"), B("_rationalPosInfty"), A("_rationalNegInfty"), B("_rationalNegInfty")),
-                "_rationalPosInfty/_rationalNegInfty (images of the parameter INFTY) when the source has no rational LP"))
+# one clause per GROUP (a failing clause costs one solver round each: 46 single clauses made the instance too slow for the quick tier)
+def conj(ns): return " && ".join("%s == %s" % (A(n), B(n)) for n in ns)
+D = [n for n, kind, role in M if role == "D"]
+G_RATTOL = [n for n in D if n.startswith("_rational")]
+G_BOOST = [n for n in D if n.startswith("_boosted")]
+G_STATE = [n for n in D if n not in G_RATTOL and n not in G_BOOST]
+notc = [ens(conj(G_RATTOL), "images of FEASTOL / OPTTOL / MAXSCALEINCR used by the exact solver: " + ", ".join(G_RATTOL)),
+        ens("b_has_rat || (%s)" % conj(["_rationalPosInfty", "_rationalNegInfty"]), "images of the parameter INFTY when the source has no rational LP"),
+        ens(conj(G_BOOST), "configuration of the boosted-precision solver and its components: " + ", ".join(G_BOOST)),
+        ens(conj(G_STATE), "counters and flags the default constructor initialises: " + ", ".join(G_STATE))]
 clause_file("clauses_notcopied.h", notc)
 # ---- INDEPENDENT: wiring of a's components to a's own objects
 wired = [ens("%s == 1" % A("wt" + n), n + " works with this object's tolerances") for n in TOL_WIRED]
@@ -214,7 +221,8 @@ clause_file("clauses_wired.h", wired)
 
 # ---- unit.json
 F = "src/soplex.hpp"
-S_ASSIGN = {"as": "assign.inc", "file": F, "sig": r"SoPlexBase<R>&\s*SoPlexBase<R>::operator=\s*\(\s*const\s+SoPlexBase<R>&\s*rhs\s*\)"}
+S_ASSIGN = {"as": "assign.inc", "file": F, "sig": r"SoPlexBase<R>&\s*SoPlexBase<R>::operator=\s*\(\s*const\s+SoPlexBase<R>&\s*rhs\s*\)",
+            "model_depends_on": [r"_realLP = new\(_realLP\) SPxLPBase<R>\(\*\(rhs\._realLP\)\);", r"_realLP->~SPxLPBase<R>\(\);"]}
 S_CTOR = {"as": "copyctor.inc", "file": F, "sig": r"SoPlexBase<R>::SoPlexBase\s*\(\s*const\s+SoPlexBase<R>&\s*rhs\s*\)"}
 S_SETINT = {"as": "setIntParam.inc", "file": F, "sig": r"bool\s+SoPlexBase<R>::setIntParam\s*\(\s*const\s+IntParam\s+param\s*,\s*const\s+int\s+value\s*,\s*const\s+bool\s+init\s*\)"}
 S_INTPARAM = {"as": "intParam.inc", "file": F, "sig": r"int\s+SoPlexBase<R>::intParam\s*\(\s*const\s+IntParam\s+param\s*\)\s*const"}
@@ -237,7 +245,7 @@ M_SAME = [mut("status_not_copied", "_status = rhs._status;", ";"),
           mut("scaler_selection_not_redone", "setIntParam(SoPlexBase<R>::SCALER, intParam(SoPlexBase<R>::SCALER), true);", ";")]
 M_IND = [mut("rationalLP_shallow_copy", r"_rationalLP = nullptr;\s*spx_alloc\(_rationalLP\);\s*_rationalLP = new\(_rationalLP\) SPxLPRational\(\*rhs\._rationalLP\);", "_rationalLP = rhs._rationalLP;", regex=True),
          mut("realLP_shallow_copy", r"_realLP = 0;\s*spx_alloc\(_realLP\);\s*_realLP = new\(_realLP\) SPxLPBase<R>\(\*\(rhs\._realLP\)\);", "_realLP = rhs._realLP;", regex=True),
-         mut("realLP_points_to_source_solver", "_realLP = &_solver;", "_realLP = (SPxLPBase<R>*)&rhs._solver;"),
+         mut("realLP_points_to_source_solver", "_realLP = &_solver;", "_realLP = (LPStub*)&rhs._solver;"),
          mut("settings_pointer_shared", "*_currentSettings = *(rhs._currentSettings);", "_currentSettings = rhs._currentSettings;"),
          mut("basis_solver_of_source", "_solver.setBasisSolver(&_slufactor);", "_solver.setBasisSolver((SLUFactor<R>*)&rhs._slufactor);"),
          mut("outstream_of_source", "_solver.setOutstream(spxout);", "_solver.setOutstream(rhs.spxout);"),
@@ -260,19 +268,25 @@ def dd(*ds):
 inst("assign_same", FA + "  [SAME: every value-like member the copy must carry]", dd(V, {"CLAUSES_SAME_ON": "", "OBS_A_BEFORE": ""}), M_SAME[:7])
 inst("assign_independent", FA + "  [INDEPENDENT: owned objects, own sub-objects, wiring, allocation; SAME LP objects and simplifier/scaler/starter selection]",
      dd(P, {"CLAUSES_IND_ON": "", "OBS_B_AFTER": ""}), M_IND + [M_SAME[7]])
-inst("assign_frame", FA + "  [FRAME: the source is unchanged]", dd(V, P, {"CLAUSES_FRAME_ON": "", "OBS_B_AFTER": ""}), [M_FRAME[0]])
+inst("assign_frame", FA + "  [FRAME: the source is unchanged]", dd(V, P, {"CLAUSES_FRAME_ON": "", "OBS_B_AFTER": ""}), [M_FRAME[0]], tier="thorough")
 inst("assign_self", FA + "  [self-assignment is a no-op]", dd(V, P, {"CLAUSES_SELF_ON": "", "SELF_ASSIGN": "", "OBS_A_BEFORE": ""}), [M_FRAME[1]])
 inst("assign_notcopied", FA + "  [SAME for object state the code does not copy: rational tolerances, boosted-solver configuration, counters and flags]",
-     dd(V, {"CLAUSES_NOTCOPIED_ON": ""}), [], tier="thorough")
-inst("assign_releases_old", FA + "  [the target's old floating-point / rational LP objects are destroyed and freed exactly once]", {"CLAUSES_RELEASE_ON": ""}, [], tier="thorough", minobl=50)
-inst("assign_tolerances_own", FA + "  [the copy has its OWN Tolerances object]", dd(V, P, {"CLAUSES_TOLOWN_ON": ""}), [], tier="thorough")
-inst("assign_no_pointer_into_source", FA + "  [no LP object of the copy keeps a pointer to a sub-object of the source: lp_scaler, spxout]", dd(P, {"CLAUSES_BACKPTR_ON": ""}), [], tier="thorough")
+     dd(V, {"CLAUSES_NOTCOPIED_ON": ""}), [])
+inst("assign_releases_old", FA + "  [the target's old floating-point / rational LP objects are destroyed and freed exactly once]", {"CLAUSES_RELEASE_ON": ""}, [
+     mut("old_realLP_not_freed", r"if\(_realLP != nullptr && _realLP != &_solver\)\s*\{.*?\}", "", regex=True),
+     mut("old_rationalLP_not_freed", r"if\(_rationalLP != nullptr\)\s*\{\s*_rationalLP->~SPxLPRational\(\);\s*spx_free\(_rationalLP\);\s*\}\s*_rationalLP = nullptr;\s*spx_alloc", "_rationalLP = nullptr; spx_alloc", regex=True),
+     mut("old_realLP_freed_without_destructor", "_realLP->~SPxLPBase<R>();", "")], minobl=50)
+inst("assign_tolerances_own", FA + "  [the copy has its OWN Tolerances object, and its LP objects use it]", dd(V, P, {"CLAUSES_TOLOWN_ON": ""}), [
+     mut("tolerances_shared", r"_tolerances = std::make_shared<Tolerances>\(\*rhs\._tolerances\);", "_tolerances = rhs._tolerances;", regex=True),
+     mut("rationalLP_tolerances_of_source", "_rationalLP->setTolerances(_tolerances);", "_rationalLP->setTolerances(rhs._rationalLP->tolerances());"),
+     mut("realLP_copy_keeps_source_tolerances", "_realLP->setTolerances(_tolerances);", ";")])
+inst("assign_no_pointer_into_source", FA + "  [no LP object of the copy keeps a pointer to a sub-object of the source: lp_scaler, spxout]", dd(P, {"CLAUSES_BACKPTR_ON": ""}), [])
 inst("copyctor_same", FC + "  [SAME]", dd(V, {"CLAUSES_SAME_ON": "", "CTOR": ""}), [mut("no_assignment", "*this = rhs;", ";", "copyctor.inc"), M_SAME[0], M_SAME[3]])
 inst("copyctor_independent", FC + "  [INDEPENDENT: fresh statistics/settings objects, own LP objects, wiring; SAME LP objects and selection]", dd(P, {"CLAUSES_IND_ON": "", "CTOR": "", "OBS_B_AFTER": ""}),
      [mut("settings_not_allocated", r"spx_alloc\(_currentSettings\);\s*_currentSettings = new\(_currentSettings\) Settings\(\);", "_currentSettings = rhs._currentSettings;", "copyctor.inc", True),
       mut("rationalLP_not_nulled", "_rationalLP = nullptr;", ";", "copyctor.inc"), M_IND[0], M_IND[4]])
-inst("copyctor_frame", FC + "  [FRAME: source unchanged]", dd(V, P, {"CLAUSES_FRAME_ON": "", "CTOR": "", "OBS_B_AFTER": ""}), [M_FRAME[0]])
-inst("copyctor_notcopied", FC + "  [SAME for object state the code does not copy; in a copy-constructed object it is uninitialised]", dd(V, {"CLAUSES_NOTCOPIED_ON": "", "CTOR": ""}), [], tier="thorough")
+inst("copyctor_frame", FC + "  [FRAME: source unchanged]", dd(V, P, {"CLAUSES_FRAME_ON": "", "CTOR": "", "OBS_B_AFTER": ""}), [M_FRAME[0]], tier="thorough")
+inst("copyctor_notcopied", FC + "  [SAME for object state the code does not copy; in a copy-constructed object it is uninitialised]", dd(V, {"CLAUSES_NOTCOPIED_ON": "", "CTOR": ""}), [])
 H = "src/soplex.h"
 unit = {
  "property": ["C17"],
@@ -290,6 +304,8 @@ unit = {
  ],
  "constants": [{"name": "K_UNKNOWN_DATA_MEMBER", "file": H, "regex": UNKNOWN_MEMBER}],
  "conformance": [
+  {"file": H, "regex": r"\n   SPxSolverBase<R> _solver;", "why": "hand-declared member (non-template class, README 20): real declaration"},
+  {"file": H, "regex": r"\n   SPxLPBase<R>\* _realLP;", "why": "hand-declared member (non-template class, README 20): real declaration"},
   {"file": "src/soplex/spxlpbase.h", "regex": r"lp_scaler = old\.lp_scaler;\s*spxout = old\.spxout;\s*_tolerances = old\._tolerances;", "why": "stub LP: same-type assignment copies lp_scaler, spxout and tolerances pointers (member-wise)"},
   {"file": "src/soplex/spxlpbase.h", "regex": r"SPxLPBase\(const SPxLPBase<R>& old\)\s*:[^{}]*lp_scaler\(old\.lp_scaler\)\s*,\s*spxout\(old\.spxout\)", "why": "stub LP: copy constructor copies lp_scaler and spxout pointers"},
   {"file": "src/soplex/spxscaler.hpp", "regex": r"SPxScaler<R>& SPxScaler<R>::operator=\(const SPxScaler<R>& rhs\).*?spxout     = rhs\.spxout;", "why": "stub scaler: assignment copies the message-handler pointer"},
